@@ -92,6 +92,7 @@ struct SimHeap {
             else if (p != MAP_FAILED) munmap(p, cap);
         }
         if (!arena) { fprintf(stderr, "heapsim: cannot map the fixed-address arena\n"); _Exit(2); }
+        ASAN_POISON_MEMORY_REGION(arena, cap);      // from the first run on, every byte outside a live block is poisoned (a fresh process must see what a long-lived worker sees)
     }
     void reset(uint64_t seed, int residueMode, bool dirtyMem) {
         init();
